@@ -59,6 +59,15 @@ def factMethods : MethodTable := fun f ncalls st recv args =>
       | some n => .ran (.ok (valOf (p ++ [.fld "P"]) n)) st false
       | none => .ran (unmodelled "GetP") st false
     | "GetP", _ => .badArgs
+    | "Score", [.int .int64 k] =>
+      -- only *Sub has Score; Fact has not
+      -- (pointer receiver: not in the method set of a struct held by value)
+      match st.get p, (st.get p).bind (·.child (.fld "N")), (st.get p).bind (·.child (.fld "I")) with
+      | some (.ptr (some _)), some _, none => .ran (.ok (.int .int64 (wrapI64 (k + 10)))) st false
+      | _, _, _ => .noMethod
+    | "Score", _ => match st.get p, (st.get p).bind (·.child (.fld "I")) with
+      | some (.ptr (some _)), none => .badArgs
+      | _, _ => .noMethod
     | _, _ => .noMethod
   | _ => .noMethod
 
